@@ -7,7 +7,6 @@ Import ListNotations.
 Implicit Types T K : tree -> Prop.
 Implicit Types E : cerr -> tree -> Prop.
 
-Definition is_os (e : cerr) : bool := match e with EFs _ => true | _ => false end.
 Definition quiet (w : world) : Prop := w_inj w = NoInj /\ w_closed w = false.
 (** the repository is closed only by a stop request that has been delivered *)
 Definition wfw (w : world) : Prop := w_closed w = true -> w_inj w = NoInj.
